@@ -1,8 +1,9 @@
 (* C04 proofs about the URI validators (DefsU.v): what is accepted consists of URI characters only;
    a value that a browser would read as having a scheme is accepted only if the scheme expression
    matches that scheme; the relative validator accepts nothing with a scheme; the absolute-only
-   validator of the code as it is accepts relative references (refutation = finding), the repaired
-   one does not. *)
+   validator accepts exactly scheme ":" hier-part [ "?" query ] [ "#" fragment ] with a scheme that the
+   scheme expression matches (the variant of parse_full() before /repo 92a72e6 accepted relative
+   references: regression example). *)
 From CppcmsV Require Import Base.Tac Base.Sweep C04.Defs C04.DefsU C04.Proofs3.
 Local Open Scope N_scope.
 
@@ -25,8 +26,18 @@ Proof.
   subst c. intros _. exists sc. reflexivity.
 Qed.
 
+Definition scheme_form (sc : list N) : Prop :=
+  exists c t, sc = c :: t /\ u_alpha c = true /\ forallb schemech t = true.
+
+Lemma scheme_split s sc r : scheme s = Some (sc, r) -> s = sc ++ r /\ scheme_form sc.
+Proof.
+  unfold scheme. destruct s as [|c s']; [discriminate|]. destruct (u_alpha c) eqn:Ea; [|discriminate].
+  intros H. inversion H; subst. split.
+  - cbn [app]. f_equal. apply takew_dropw.
+  - exists c, (takew schemech s'). split; [reflexivity|]. split; [exact Ea|apply takew_all].
+Qed.
+
 Section Schemes.
-  Variable strict_full : bool.
   Variable sre : list N -> bool.
 
   Lemma parse_uri_scheme v sc : visible_scheme v = Some sc ->
@@ -37,45 +48,116 @@ Section Schemes.
   Qed.
 
   Lemma uri_both_scheme_checked v sc :
-    uri_validate strict_full UBoth sre v = true -> visible_scheme v = Some sc -> sre sc = true.
+    uri_validate UBoth sre v = true -> visible_scheme v = Some sc -> sre sc = true.
   Proof.
     intros Hv Hs. destruct (parse_uri_scheme v sc Hs) as (ok & Hp). unfold uri_validate in Hv. rewrite Hp in Hv.
-    destruct ok; [exact Hv|discriminate].
-  Qed.
-
-  Lemma uri_full_scheme_checked v sc :
-    uri_validate strict_full UFull sre v = true -> visible_scheme v = Some sc -> sre sc = true.
-  Proof.
-    intros Hv Hs. destruct (parse_uri_scheme v sc Hs) as (ok & Hp). unfold uri_validate in Hv. rewrite Hp in Hv.
-    rewrite andb_false_r in Hv. destruct ok; [exact Hv|discriminate].
+    cbv beta iota in Hv. destruct ok; [exact Hv|discriminate].
   Qed.
 
   Lemma uri_relative_no_scheme v :
-    uri_validate strict_full URelative sre v = true -> visible_scheme v = None.
+    uri_validate URelative sre v = true -> visible_scheme v = None.
   Proof.
     intros Hv. destruct (visible_scheme v) as [sc|] eqn:Hs; [|reflexivity].
     destruct (parse_uri_scheme v sc Hs) as (ok & Hp). unfold uri_validate in Hv. rewrite Hp in Hv.
-    destruct ok; discriminate.
+    cbv beta iota in Hv. destruct ok; discriminate.
+  Qed.
+
+  (* parse_full(): success means scheme ":" hier-part [ "?" query ] [ "#" fragment ] covering the whole value *)
+  Lemma parse_full_spec v sc : parse_full v = Some sc ->
+    exists rest, v = sc ++ 58 :: rest /\ scheme_form sc /\ visible_scheme v = Some sc /\
+                 opt_fragment (opt_query (hier_part rest)) = [].
+  Proof.
+    unfold parse_full, uri, visible_scheme. destruct (scheme v) as [[sc' r]|] eqn:Es; [|discriminate].
+    destruct (scheme_split v sc' r Es) as (Hv & Hf).
+    unfold follows_c. destruct r as [|c r]; [discriminate|]. destruct (N.eqb_spec c 58) as [E|E]; [|discriminate].
+    subst c. destruct (opt_fragment (opt_query (hier_part r))) as [|x y] eqn:Er; [|discriminate].
+    intros H. inversion H; subst sc'. exists r. split; [exact Hv|]. split; [exact Hf|]. split; [reflexivity|exact Er].
+  Qed.
+
+  (* the absolute-only validator: every accepted value is scheme ":" hier-part ..., the scheme is the one a browser
+     reads, and the scheme expression matches it *)
+  Lemma uri_full_has_scheme v : uri_validate UFull sre v = true ->
+    exists sc rest, v = sc ++ 58 :: rest /\ scheme_form sc /\ sre sc = true /\ visible_scheme v = Some sc /\
+                    opt_fragment (opt_query (hier_part rest)) = [].
+  Proof.
+    unfold uri_validate. destruct (parse_full v) as [sc|] eqn:Ep; [|discriminate]. intros Hs.
+    destruct (parse_full_spec v sc Ep) as (rest & H1 & H2 & H3 & H4). exists sc, rest.
+    exact (conj H1 (conj H2 (conj Hs (conj H3 H4)))).
+  Qed.
+
+  Lemma uri_full_scheme_checked v sc :
+    uri_validate UFull sre v = true -> visible_scheme v = Some sc -> sre sc = true.
+  Proof.
+    intros Hv Hs. destruct (uri_full_has_scheme v Hv) as (sc' & rest & _ & _ & Hm & Hs' & _).
+    rewrite Hs in Hs'. inversion Hs'; subst. exact Hm.
+  Qed.
+
+  (* conversely: scheme ":" rest with the rest consumed by hier-part [?query] [#fragment] is accepted when the
+     scheme expression matches - the description above is exact *)
+  Lemma scheme_of_form sc rest : scheme_form sc -> scheme (sc ++ 58 :: rest) = Some (sc, 58 :: rest).
+  Proof.
+    intros (c & t & Hsc & Ha & Ht). subst sc. cbn [app scheme]. rewrite Ha.
+    assert (Hw : forall t, forallb schemech t = true ->
+                 takew schemech (t ++ 58 :: rest) = t /\ dropw schemech (t ++ 58 :: rest) = 58 :: rest).
+    { clear. induction t as [|x t IH]; intros H.
+      - split; reflexivity.
+      - cbn [forallb] in H. apply andb_true_iff in H. destruct H as [Hx Ht]. destruct (IH Ht) as [I1 I2].
+        cbn [app takew dropw]. rewrite Hx, I1, I2. split; reflexivity. }
+    destruct (Hw t Ht) as [W1 W2]. rewrite W1, W2. reflexivity.
+  Qed.
+
+  Lemma uri_full_complete sc rest : scheme_form sc -> sre sc = true ->
+    opt_fragment (opt_query (hier_part rest)) = [] -> uri_validate UFull sre (sc ++ 58 :: rest) = true.
+  Proof.
+    intros Hf Hm Hr. unfold uri_validate, parse_full, uri. rewrite (scheme_of_form sc rest Hf).
+    cbn [follows_c N.eqb Pos.eqb]. rewrite Hr. exact Hm.
   Qed.
 End Schemes.
 
-(* the repaired absolute-only validator: every accepted value has a scheme, and it matches *)
-Lemma uri_full_strict_has_scheme sre v :
-  uri_validate true UFull sre v = true -> exists sc, visible_scheme v = Some sc /\ sre sc = true.
+Lemma uri_full_exact sre v :
+  uri_validate UFull sre v = true <->
+  exists sc rest, v = sc ++ 58 :: rest /\ scheme_form sc /\ sre sc = true /\
+                  opt_fragment (opt_query (hier_part rest)) = [].
 Proof.
-  intros Hv. assert (Hu : exists rest, uri v = Some rest).
-  { unfold uri_validate, parse_uri in Hv. destruct (uri v) as [rest|]; [eexists; reflexivity|].
-    destruct (relative_ref v); cbn [andb] in Hv; discriminate. }
-  destruct Hu as (rest & Hu). destruct (uri_visible_scheme v rest Hu) as (sc & Hs). exists sc. split; [exact Hs|].
-  exact (uri_full_scheme_checked true sre v sc Hv Hs).
+  split.
+  - intros H. destruct (uri_full_has_scheme sre v H) as (sc & rest & H1 & H2 & H3 & _ & H5).
+    exists sc, rest. exact (conj H1 (conj H2 (conj H3 H5))).
+  - intros (sc & rest & H1 & H2 & H3 & H4). subst v. exact (uri_full_complete sre sc rest H2 H3 H4).
 Qed.
 
-(* the code as it is: "http/evil" is accepted by the absolute-only validator for (http|https) *)
+(* through the rule set: attributes registered with a URI validator *)
+Lemma uri_both_attribute r vfun k sre tag pn v sc :
+  find_prop r tag pn = Some (VFun k) -> vfun k = uri_validate UBoth sre ->
+  c_val_ok r vfun tag pn v = true -> visible_scheme v = Some sc -> sre sc = true.
+Proof.
+  intros Hf Hk Hv Hs. unfold c_val_ok in Hv. rewrite Hf, Hk in Hv. exact (uri_both_scheme_checked sre v sc Hv Hs).
+Qed.
+
+Lemma uri_full_attribute r vfun k sre tag pn v :
+  find_prop r tag pn = Some (VFun k) -> vfun k = uri_validate UFull sre ->
+  c_val_ok r vfun tag pn v = true ->
+  exists sc rest, v = sc ++ 58 :: rest /\ scheme_form sc /\ sre sc = true /\ visible_scheme v = Some sc /\
+                  opt_fragment (opt_query (hier_part rest)) = [].
+Proof.
+  intros Hf Hk Hv. unfold c_val_ok in Hv. rewrite Hf, Hk in Hv. exact (uri_full_has_scheme sre v Hv).
+Qed.
+
+Lemma uri_relative_attribute r vfun k sre tag pn v :
+  find_prop r tag pn = Some (VFun k) -> vfun k = uri_validate URelative sre ->
+  c_val_ok r vfun tag pn v = true -> visible_scheme v = None.
+Proof.
+  intros Hf Hk Hv. unfold c_val_ok in Hv. rewrite Hf, Hk in Hv. exact (uri_relative_no_scheme sre v Hv).
+Qed.
+
+(* regression (the defect repaired by /repo 92a72e6): with the scheme expression (http|https) the value http/evil
+   was accepted by the absolute-only validator; it is rejected now, an absolute URI is still accepted *)
 Definition ex_http_https (sc : list N) : bool := leqb sc [104;116;116;112] || leqb sc [104;116;116;112;115].
-Lemma uri_full_accepts_relative :
-  uri_validate false UFull ex_http_https [104;116;116;112;47;101;118;105;108] = true /\
-  visible_scheme [104;116;116;112;47;101;118;105;108] = None.
-Proof. split; vm_compute; reflexivity. Qed.
+Lemma uri_full_regression :
+  uri_validate UFull ex_http_https [104;116;116;112;47;101;118;105;108] = false /\
+  uri_validate_full_old ex_http_https [104;116;116;112;47;101;118;105;108] = true /\
+  visible_scheme [104;116;116;112;47;101;118;105;108] = None /\
+  uri_validate UFull ex_http_https [104;116;116;112;58;47;47;104;47] = true.
+Proof. repeat split; vm_compute; reflexivity. Qed.
 
 (* ---------- alphabet ---------- *)
 Definition uchar (c : N) : bool :=
@@ -318,8 +400,19 @@ Proof.
     pose proof (relative_ref_ok v) as Hc. rewrite Er in Hc. destruct Hc as (p & Hp & Hu). rewrite app_nil_r in Hp. subst. exact Hu.
 Qed.
 
-Lemma uri_validate_alphabet sf k sre v : uri_validate sf k sre v = true -> forallb uchar v = true.
+Lemma parse_full_alphabet v sc : parse_full v = Some sc -> forallb uchar v = true.
 Proof.
-  unfold uri_validate. destruct (parse_uri v) as [[ok rel] range] eqn:Ep.
-  destruct ok; [|destruct k; discriminate]. intros _. exact (parse_uri_alphabet v rel range Ep).
+  unfold parse_full. destruct (scheme v) as [[sc' r]|]; [|discriminate].
+  destruct (uri v) as [rest|] eqn:Eu; [|discriminate]. destruct rest as [|c r']; [|discriminate]. intros _.
+  destruct (uri_ok v [] Eu) as (p & Hp & Hu). rewrite app_nil_r in Hp. subst. exact Hu.
+Qed.
+
+Lemma uri_validate_alphabet k sre v : uri_validate k sre v = true -> forallb uchar v = true.
+Proof.
+  unfold uri_validate. destruct k.
+  - destruct (parse_uri v) as [[ok rel] range] eqn:Ep. destruct ok; [|discriminate]. intros _.
+    exact (parse_uri_alphabet v rel range Ep).
+  - destruct (parse_uri v) as [[ok rel] range] eqn:Ep. destruct ok; [|discriminate]. intros _.
+    exact (parse_uri_alphabet v rel range Ep).
+  - destruct (parse_full v) as [sc|] eqn:Ep; [|discriminate]. intros _. exact (parse_full_alphabet v sc Ep).
 Qed.
